@@ -266,7 +266,7 @@ theorem folds_ordered_window {k n wl step fh iw} (v : Split.Spec.Valid k n wl st
 /-- the single-window splitter -/
 theorem folds_ordered_single (n : Int) (fh : List Int) (wl : Option Int)
     (hs : fh.Pairwise (· < ·)) (hne : fh ≠ []) (hpos : ∀ h ∈ fh, 0 < h)
-    (hwl : ∀ w, wl = some w → 1 ≤ w) (hfit : fhMax fh ≤ n - 1) (fs : List Fold)
+    (hwl : ∀ w, wl = some w → 1 ≤ w ∧ w + fhMax fh ≤ n) (hfit : fhMax fh ≤ n - 1) (fs : List Fold)
     (h : singleSplit n fh wl = .ok fs) : FoldsOK n (fhMin fh) fs := foldsOK_single n fh wl hs hne hpos hwl hfit fs h
 
 /-- the cutoff splitter -/
